@@ -307,7 +307,7 @@ def all_playback_files():
 # --------------------------------------------------------------------------- V
 
 def run_verus(path, timeout=600, rlimit=None, extra=None):
-    cmd = ["verus", path, "--output-json", "--time", "--multiple-errors", "20"]
+    cmd = ["verus", path, "--output-json", "--time", "--multiple-errors", "20", "--triggers-mode", "silent"]
     if rlimit:
         cmd += ["--rlimit", str(rlimit)]
     if extra:
@@ -357,7 +357,8 @@ _V_SEMANTIC = re.compile(
     r"postcondition not satisfied|precondition not satisfied|invariant not satisfied|assertion failed|"
     r"possible arithmetic underflow/overflow|possible division by zero|decreases not satisfied|"
     r"recommendation not met|possible bit shift underflow/overflow|unreachable|"
-    r"loop invariant|index out of bounds|slice index", re.I)
+    r"loop invariant|index out of bounds|slice index|unable to prove post-?condition of closure|"
+    r"unable to prove assertion|constructed value may fail to meet its declared type invariant", re.I)
 
 
 def classify_v_block(headline):
